@@ -70,6 +70,7 @@ MANIFEST = {
 }
 _ME = "checks.c40"
 SPECIAL = True
+ALT_TOPICS = ("offsets",)
 XREF = True
 ORPHANS_BOGUS = (("K", "before"), ("A", "after"))
 ORPHANS = (("K", "before"), ("K", "after"), ("S", "after"), ("A", "before"), ("A", "after"))
@@ -90,6 +91,7 @@ def plans(ctx):
     # no-op history: the same parsed code analysed a second / third time (keys end in :second-analysis)
     for n in (1, 2):
         p.append({"id": "again-n%d" % n, "n": n, "kinds": "VGIKSA", "layouts": M.LAYOUTS_MID, "history": ("reanalyse",)})
+    p += CC.combo_plans(ctx)
     # 31t offsets at which NO payload starts (inside an instruction / a payload, at an ordinary instruction, outside the code)
     for n in (1, 2):
         p.append({"id": "bogus-n%d" % n, "n": n, "kinds": "VGKSA", "bogus": M.BOGUS, "require_bogus": True,
